@@ -32,7 +32,7 @@ class RTMod(symstr.SymStr):
             return [(OK, hirai.UNIT, st)]
         a0 = I.deref_val(st, args[0]) if args else None
         if a0 is not None and a0[0] == "abs" and a0[1] == "svec":
-            if callee.endswith("IntoIterator>::into_iter") or callee == "core::iter::traits::collect::IntoIterator::into_iter" or callee.endswith("::iter"):
+            if callee.endswith("IntoIterator>::into_iter") or callee == "core::iter::traits::collect::IntoIterator::into_iter" or callee.endswith("::iter") or callee.endswith("::into_iter"):
                 return [(OK, ("abs", "siter", a0[2], 0), st)]
             if callee.endswith("::is_empty"):
                 return [(OK, ("bool", len(a0[2]) == 0), st)]
